@@ -45,7 +45,7 @@ check("C06", "other",
       "DESIGN.md section 3 (E3, E2), section 4 (C06)")
 
 check("C10", "other",
-      "Structural necessary conditions decided statically: all rewrite and restriction variants are translated; the edge-kind, node-kind and operator-label constants reaching the constructors in each translation step equal the documented table and the sibling plain builder; exclusion children are (base, subtract); operator labels contain a random id made in the same invocation; translation loops run to completion unless they fail; the empty condition is normalised before comparison; Build does not write its model argument (may-point-to).",
+      "Structural necessary conditions decided statically: all rewrite and restriction variants are translated; the edge-kind, node-kind and operator-label constants reaching the constructors in each translation step equal the documented table and the sibling plain builder; exclusion children are (base, subtract); operator labels contain a random id made in the same invocation; translation loops run to completion unless they fail; the empty condition is normalised before comparison; each translation step creates its edges through the documented function (add vs upsert, has-edge guard), agreed between the builders; an existing edge is matched only on paths that compared its kind and tupleset relation with the parameters; Build does not write its model argument (may-point-to).",
       _GRAPH_NOTE + " One-to-one correspondence of graph and rewrite as a whole is NOT decided.",
       "constant-propagation tables over SSA call arguments compared between sibling implementations and a documented table; may-point-to purity analysis; AST loop-exit rule",
       "DESIGN.md section 3 (E1, E2), section 4 (C10)")
@@ -57,13 +57,13 @@ check("C11", "other",
       "DESIGN.md section 3 (E2, E3), section 4 (C11)")
 
 check("C17", "other",
-      "Structural necessary conditions decided statically for the plain graph: all rewrite/restriction variants translated with the documented edge/node kinds (equal to the sibling builder); operator labels fresh per occurrence; translation loops complete; Reversed forwards every edge field, flips endpoints and direction; no order-sensitive loop over gonum's map-backed iterators or Go maps, iterator-materialised slices sorted by a total comparator, ULIDs never reach DOT attributes or ordering comparisons, sorted private copy of types; PathExists returns the library reachability query on the looked-up nodes; no argument or package-state writes.",
+      "Structural necessary conditions decided statically for the plain graph: all rewrite/restriction variants translated with the documented edge/node kinds (equal to the sibling builder); operator labels fresh per occurrence; translation loops complete; Reversed forwards every edge field, flips endpoints and direction; no order-sensitive loop over gonum's map-backed iterators or Go maps, iterator-materialised slices sorted by a total comparator, ULIDs never reach DOT attributes or ordering comparisons, sorted private copy of types; PathExists returns the library reachability query on the looked-up nodes; an existing line is matched only after its kind and tupleset relation were compared; no argument or package-state writes.",
       _GRAPH_NOTE + " Path duality and cycle classification (gonum algorithms on run-time graphs) are NOT decided.",
       "AST effect classification of iterator/map loops; SSA entropy taint with DOT-attribute sinks; struct-field coverage of Reversed; may-point-to purity; sibling constant tables",
       "DESIGN.md section 3 (E1, E2, E3), section 4 (C17)")
 
 check("C09", "other",
-      "Grammar half decided for ALL token sequences on the parser automaton embedded in the Go package: at most one operator kind per unparenthesised level (abstract interpretation over rule automata), direct assignment leftmost on every level, non-empty restriction lists with type names, wildcard xor relation, exactly one header and EOF, container parameter types have exactly one scalar element type. Listener half: every insert into a declaration table is dominated by a lookup of the same key whose 'present' branch notifies; 'extend' misuse notified under exactly the stated condition; the collecting error listener is attached to lexer and parser, records on every path, and any recorded error voids the result.",
+      "Grammar half decided for ALL token sequences on the parser automaton embedded in the Go package: at most one operator kind per unparenthesised level (abstract interpretation over rule automata), direct assignment leftmost on every level, non-empty restriction lists with type names, wildcard xor relation, exactly one header and EOF, container parameter types have exactly one scalar element type. Listener half: every insert into a declaration table is dominated by a lookup of the same key whose 'present' branch notifies; 'extend' misuse notified under exactly the stated condition; the collecting error listener is attached to lexer and parser, records on every path, the pre-pass hands the parser one cleaned line per input line (nothing is cut off), and any recorded error voids the result.",
       "Trusted: the ANTLR runtime rejects every input the automaton does not derive and delivers notifications to attached listeners; C19 ties the automaton to the .g4.",
       "observer products and abstract interpretation over per-rule DFAs of the decoded ATN; SSA dominator + access-path analysis of listener callbacks",
       "DESIGN.md section 3 (E8 R8.4, E5), section 4 (C09)")
@@ -75,7 +75,7 @@ check("C15", "other",
       "DESIGN.md section 3 (E6), section 4 (C15), section 11.2 (path explorer)")
 
 check("C16", "other",
-      "Structural necessary conditions decided statically: the ParseDSL pre-pass keeps line structure and prefixes (split on newline, one cleaned line per input line, only prefix-preserving operations, comment cut at the first ' #', join + trailing-newline trim only); SyntaxError stores line-1 and the column unconditionally and records on every path; listener-raised errors pass the start token of a name rule of the grammar; merge errors pair file, lines and the finder matching the conflict kind on the same symbol; line finders reject continuation by every name character of the lexer grammar (abstract evaluation over all bytes) and must be scoped.",
+      "Structural necessary conditions decided statically: the ParseDSL pre-pass keeps line structure and prefixes (split on newline, one cleaned line per input line, only prefix-preserving operations, comment cut at the first ' #', join + trailing-newline trim only); SyntaxError stores line-1 and the column unconditionally and records on every path; listener-raised errors pass the start token of a name rule of the grammar; merge errors pair file, lines and the finder matching the conflict kind on the same symbol; the column is the first occurrence of the symbol on its line; line finders reject continuation by every name character of the lexer grammar (abstract evaluation over all bytes) and must be scoped.",
       "Trusted: ANTLR token positions refer to the stream it was given. One known finding (relation finder not scoped to its type) is listed in known-findings.json.",
       "typed-AST shape analysis of the pre-pass; SSA access-path analysis of error literals; abstract evaluation of the delimiter helper over the lexer grammar's name characters; grammar-derived name rules",
       "DESIGN.md section 3 (E9), section 4 (C16)")
@@ -99,7 +99,7 @@ check("C03", "other",
       "DESIGN.md section 3 (E9, E1, E8), section 4 (C03)")
 
 check("C07", "other",
-      "Structural necessary conditions decided on TransformModuleFilesToModel: no reachable may-panic instruction of the merger is left undischarged (same engine as C08); on every structured path through each merger loop exactly one thing happens to the item (one error, merged, or handed to an inner loop); the model is returned only with an empty error accumulator and every error return carries the nil model; every merge error is one of the five documented conflicts, raised under the documented dominating condition, and every documented conflict still has a site; every merge error names the file being processed and takes its position from that file's lines; every SourceInfo takes File from the file whose parse produced the object; the requested schema version is stored; the list a relation clash is tested against is rebuilt per item from the live map or accumulates accepted names; GetModuleForObjectTypeRelation has the three documented outcomes.",
+      "Structural necessary conditions decided on TransformModuleFilesToModel: no reachable may-panic instruction of the merger is left undischarged (same engine as C08); on every structured path through each merger loop exactly one thing happens to the item (one error, merged, or handed to an inner loop); the model is returned only with an empty error accumulator and every error return carries the nil model; every merge error is one of the five documented conflicts, raised under the documented dominating condition, and every documented conflict still has a site; an extension's relations are adopted wholesale only on paths that just found the base type itself without relations; every merge error names the file being processed and takes its position from that file's lines; every SourceInfo takes File from the file whose parse produced the object; the requested schema version is stored; the list a relation clash is tested against is rebuilt per item from the live map or accumulates accepted names; GetModuleForObjectTypeRelation has the three documented outcomes.",
       "NOT decided: the iff between success and conflict-freedom and the conservation clause ('none lost, none invented, rewrites unchanged') over all file sets - these are value arguments. Observed pre-existing behaviour outside the rules: a non-module file whose types have relations is accepted; a file that declares and extends the same type is rejected.",
       "SSA may-panic obligation discharge (E4); structured path enumeration over loop bodies; SSA dominating-condition analysis with access paths at error sites; typed-AST assignment classification",
       "DESIGN.md section 3 (E4, E5, E9), section 4 (C07)")
